@@ -11,6 +11,11 @@ SPEC = {
          'sinks': {'C07_outcome': 'c07o_judge'}, 'n': {'quick': 300, 'thorough': 10000}},
         {'pkg': 'execute', 'src': 'harness/execute/c07_test.go', 'test': 'TestVerif_C07_quorum', 'fakes': True,
          'sinks': {'C07_quorum': 'quorum_judge'}, 'n': {'quick': 100, 'thorough': 2000}},
+        {'pkg': 'execute', 'src': 'harness/execute/execsys_test.go', 'test': 'TestVerif_ExecSys', 'fakes': True,
+         'coq_import': 'ExecSys_check',
+         'sinks': {'ExecSys_cycle_0': 'sys_judge', 'ExecSys_cycle_1': 'sys_judge', 'ExecSys_cycle_2': 'sys_judge',
+                   'ExecSys_cycle_3': 'sys_judge'},
+         'n': {'quick': 160, 'thorough': 4000}},
     ],
     'known': {'2': 'F13e'},
     'rule': 'DONs of 4..10 oracles (ids from 0..15), 1..3 source chains + destination, per-chain f in 1..3 (class weird-f: '
@@ -26,7 +31,23 @@ SPEC = {
             'accepted, getConsensusObservation. outcome: the same generator with N in {4,7}, F in {1,2}, f(source) != f(dest), through execute.Plugin.ValidateObservation + '
             'execute.Plugin.Outcome (F from the reporting config, fChain from the plugin\'s home chain) in the GetCommitReports phase (decoded '
             'PendingCommitReports) and the GetMessages phase (messages attached to one wide pending report per chain), judged by the same clauses. '
-            'quorum: execute.Plugin.ObservationQuorum at F-1..2F+1 observations. non-trivial = merge succeeded on >= 2 accepted observations; distinct by full input',
+            'quorum: execute.Plugin.ObservationQuorum at F-1..2F+1 observations. non-trivial = merge succeeded on >= 2 accepted observations; distinct by full input. '
+            'execsys (sinks ExecSys_cycle_0..3, one case = one whole cycle): 4 (F=1) or 7 (F=2) real execute.Plugin instances built once per history with NewPlugin '
+            '(contract discovery on) run 2..4 cycles GetCommitReports -> GetMessages -> Filter over one scripted world (1..2 source chains; commit reports of 1..4 '
+            'messages with holes between them; out-of-order and sequenced messages of three senders with gaps; token data of 0..2 slots, some not ready; costly flags; '
+            'executed messages; the cycle\'s report lands fully / partly / never; an oracle that does not read chain 2 in a fifth of the histories). Honest oracles observe through '
+            'Plugin.Observation; classes honest / byz1 (one deviating oracle, any position) / collude (F+1 oracles deviating identically) / lag (an honest oracle reading the '
+            'destination one cycle late) / lag+byz1; per round the deviating observation is the honest one rewritten by one of 9 / 12 / 7 shapes (dropped, other executed list, '
+            'reports filed or copied under another chain key, forged report, repeated report, other timestamp, commit data already carrying messages / token data / costly ids, a '
+            'committed report the honest readers do not see - with and without its messages -, variant / re-keyed / dropped messages, extra / variant / shifted token slots, '
+            'every id flagged costly twice, nonces + 1 / under another chain / for an unknown sender). Every observation goes through JSON and Plugin.ValidateObservation, '
+            'Plugin.Outcome runs on every oracle (all must agree); a failed round is repeated on the same previous outcome. Judged: model = implementation for every '
+            'round (verdicts and decoded outcome, ids of items = first 8 bytes of the implementation\'s sha3 id so that GetValid order is reproduced), the end-to-end '
+            'clauses (a)-(c) on the implementation\'s outputs, and - when at most f oracles deviate - the liveness ground truth (every eligible pending message of the '
+            'world is in the cycle\'s report; class 2 = F13e masks this clause only) and nothing the destination shows as executed is in any report of the cycle. In a tenth of the '
+            'cycles (class readerr) the destination reader fails, on every oracle, for all but the last executed-range query of a chain: no report may then hold an executed message '
+            '(catches seeded C09-6 through the copy of this part in C09). The harness seed is hashed (neighbouring splitmix seeds give shifted copies of one stream). '
+            'Probes, not part of the check: VERIF_XS_PROBE=poison / poison1 replay C09_cycle_liveness_poisoned_refuted on the real plugins. non-trivial = the Filter round\'s report holds a message',
     'trusted': ['item identity = the implementation\'s id function (sha3 of "%v"; TokenDataHash): the harness interns the same '
                 'rendering, the other item fields are functions of it',
                 'HomeChain.GetSupportedChainsForPeer answers are an oracle (scripted fake); fChain is an input (the plugin reads it from its local home-chain view)',
@@ -37,10 +58,20 @@ SPEC = {
                   'item and no validated observation votes twice for one item, for all fChain maps and all validated observation lists '
                   'with distinct oracles; items with that support are always present and the merge never fails on validated observations '
                   '(C07_non_blocking at full strength after the F13d repair), except that a token slot index without support makes a '
-                  'message\'s token data not ready (recorded F13e); refutation theorems for the code before the F13a/F13c/F13d repairs. Correspondence: ValidateObservation + getConsensusObservation against the model on generated DONs every run',
+                  'message\'s token data not ready (recorded F13e); refutation theorems for the code before the F13a/F13c/F13d repairs. Correspondence: ValidateObservation + getConsensusObservation against the model on generated DONs every run. '
+                  'System level (Model/ExecSys.v = Plugin.Outcome composed from the C07 / C08 models and the state machine, Proofs/ExecSysP.v): C07_used_needs_quorum_cycle - for every '
+                  'cycle GetCommitReports -> GetMessages -> Filter of validated observation lists: a message in the Filter round\'s execute report has (i) its commit report (full item) '
+                  'reported by f_j+1 distinct oracles in round 1, j = the chain key it was FILED under (what the code does: not f_dest, not tied to the report\'s source chain), carried '
+                  'unchanged through round 2, (ii) itself reported by f_k+1 under its source chain key in round 2, (iii) ready token data whose slots have f_k+1 reporters '
+                  '(C07_token_data_cycle: of its own sequence number, by counting, when the agreed commit data carried no token data - the builder compares list lengths only), '
+                  'fewer than f_dest+1 costly flags (C07_not_costly_cycle), (iv) a sequenced message\'s on-chain nonce reported by f_dest+1 in round 3; C07_cycle_nonvacuous. '
+                  'Correspondence of exec_round with real long-lived plugins, round by round, incl. deviating oracles: sinks ExecSys_cycle_*',
     'level_note': 'Trusted: Coq kernel, hand-written model, differential harness, interning of the %v identity. No axioms. '
                   'Two valid items with one map key (same sequence number / same sender) are stored by Go map order (F17, property C10): '
                   'the check accepts any possible assignment.',
     'modelled': 'validateObserverReadingEligibility, validateObserverDataEligibility, validateObservedSequenceNumbers, validateMessageKeys, validateObservedChains, merge{Commit,Message,Token,Nonce}Observations, '
-                'mergeCostlyMessages, getConsensusObservation; JSON codec and home-chain lookups are inputs',
+                'mergeCostlyMessages, getConsensusObservation; JSON codec and home-chain lookups are inputs. System level (Model/ExecSys.v): Plugin.Outcome (state decoding, '
+                'getConsensusObservation, PluginState.Next, getCommitReportsOutcome, getMessagesOutcome + observedSeqNumsInRange, getFilterOutcome -> selectReport + report builder, '
+                'NewOutcome sorting, the empty-outcome rule), GetValid\'s ascending-id order, a history of rounds as a fold (a failed round commits nothing); not modelled: contract discovery, '
+                'Plugin.Observation (observations are inputs), the nil outcome of a plugin whose contracts are not initialised',
 }
